@@ -28,7 +28,7 @@ def model_check(ctx):
     tot = {"states": 0, "transitions": 0, "runs": {}}
 
     def ok(name, fixed, space, invs, timeout=900, allow_timeout=False):
-        r = vlib.run_tlc(ctx, FAMILY, "MCSplit", mc_cfg(fixed, space, invs), timeout=timeout, name=name)
+        r = vlib.run_tlc(ctx, FAMILY, "MCSplit", mc_cfg(fixed, space, invs), timeout=timeout, name=name, workers=4)
         vlib.require_mc_ok(ctx, r, "MCSplit %s" % name, allow_timeout=allow_timeout)
         tot["states"] += r.distinct; tot["transitions"] += r.generated
         tot["runs"][name] = [r.distinct, r.generated, round(r.wall, 1)]
@@ -135,7 +135,7 @@ class Chunks:
             return v, m, res.distinct
 
         viol, impl, states = {}, {}, 0
-        with cf.ThreadPoolExecutor(max_workers=max(1, min(vlib.NCPU // 2, 8))) as ex:
+        with cf.ThreadPoolExecutor(max_workers=max(1, min(vlib.NCPU // 2, 4))) as ex:
             for v, m, st in ex.map(do, range(len(self.files))):
                 states += st
                 for x in v:
@@ -208,39 +208,31 @@ def classify(ln, v):
 
 
 def classify_send(ln, v):
-    """Signatures for a line recorded at sendRPC (what was queued for the wire)."""
+    """Signatures for a line recorded at sendRPC (queued for the wire / reported dropped / kept for a retry)."""
     out = []
-    limit, sizes, queued, drops = ln["limit"], ln["qsizes"], ln["queued"], ln["drops"]
+    limit = ln["limit"]
     path = "whole" if ln["insize"] < limit else ("slow" if ln["rest"] >= limit else "fast")
-    lost = sorted(v["lost"])
-    for k in lost:
-        if k == "pub":
-            c = "with-empty-messages" if "m:" in v["lostpub"] else ""
-        elif k in ("ihave", "iwant", "idontwant") and drops >= 1:
-            c = "after-a-drop"
-        else:
-            c = ""
-        out.append(("P_C11_SendNoLoss", {"clause": "send-lost", "kind": k, "path": path, "context": c}))
+    q = "queue-full" if ln["cap"] >= 0 and len(ln["queued"]) >= ln["cap"] else "queue-has-room"
+    for k in sorted(v["lost"]):
+        # neither queued nor in any drop report
+        out.append(("P_C11_DropReported", {"clause": "dropped-silently", "kind": k, "path": path, "queue": q}))
     for k in sorted(v["extra"]):
-        out.append(("P_C11_SendNoDuplicate", {"clause": "send-extra", "kind": k, "path": path}))
+        out.append(("P_C11_SendNoDuplicate", {"clause": "send-extra", "kind": k, "path": path, "queue": q}))
     if not v["puborder"] and "pub" not in v["lost"] and "pub" not in v["extra"]:
         out.append(("P_C11_SendPublishOrder", {"clause": "send-puborder", "path": path}))
-    ctxs = set()
-    for i in v["empty"]:
-        if (path == "slow" and set(v["anylost"]) & D1_KINDS and i == len(queued) and queued[i - 1].get("ctl") and sizes[i - 1] == 2):
-            ctxs.add("control-wrapper-after-D1-loss")
-        elif drops >= 1:
-            ctxs.add("with-a-drop")
-        else:
-            ctxs.add("other")
-    for c in sorted(ctxs):
-        out.append(("P_C11_SendNoEmptyRPC", {"clause": "send-empty", "context": c, "path": path}))
+    if v["empty"]:
+        out.append(("P_C11_SendNoEmptyRPC", {"clause": "send-empty", "path": path}))
     if v["over"]:
         out.append(("P_C11_Queue", {"clause": "queued-oversize", "path": path}))
-    if v["unreported"]:
-        # something is missing from the queue and no drop was reported; the kinds that are missing WRONGLY are reported above
-        for k in sorted(set(v["anylost"]) - set(lost)):
-            out.append(("P_C11_DropReported", {"clause": "unreported-drop", "kind": k, "path": path}))
+    kinds = set()
+    for i in v["baddrop"]:
+        kinds.add("fitting-rpc-dropped" if ln["dsizes"][i - 1] <= limit else "oversized-rpc-of-several-elements-dropped")
+    for c in sorted(kinds):
+        out.append(("P_C11_OnlyUnfittingDropped", {"clause": c, "path": path, "queue": q}))
+    if v["evtbad"]:
+        out.append(("P_C11_DropReported", {"clause": "drop-trace-event-differs-from-dropped-rpc", "path": path}))
+    for k in sorted(v["retrybad"]):
+        out.append(("P_C11_SendNoDuplicate", {"clause": "retry-of-something-not-dropped", "kind": k, "path": path}))
     if not v["shapeok"]:
         out.append(("P_C11_NothingElse", {"clause": "malformed"}))
     return out
@@ -261,8 +253,12 @@ def run(ctx):
                          "limit=rest (fast path boundary)", "split-within:subs", "split-within:graft", "split-within:prune",
                          "split-within:ihave", "split-within:iwant", "split-within:idw", "split-within:pub",
                          "send:whole (size < limit)", "send:split", "send:drop reported", "send:exact fit queued",
-                         "send:limit=size", "send:slow+idontwant", "send:drop+gossip",
-                         "send:piggybacked content takes the RPC over the limit"]}
+                         "send:limit=size", "send:slow+idontwant",
+                         "send:piggybacked content takes the RPC over the limit",
+                         "send:queue full, whole RPC dropped", "send:queue full after some fragments",
+                         "send:queue-full drop with GRAFT/PRUNE next to gossip ids", "send:GRAFT/PRUNE kept for a retry",
+                         "send:giant id with fitting elements before and after"]
+          + ["send:dropped %s id reported (%s)" % (k, c) for k in ("ihave", "iwant", "idontwant") for c in ("oversize", "queue full")]}
     nontrivial, ids, panicked, samples_pool = set(), set(), [], {"tlc": [], "rand": []}
     count = {"tlc": 0, "rand": 0, "send": 0}
     touched = [0]
@@ -303,8 +299,6 @@ def run(ctx):
             ob["send:split"] += 1
         if l["drops"] >= 1:
             ob["send:drop reported"] += 1
-            if any(l["inp"].get(k) for k in ("ihave", "iwant", "idw")):
-                ob["send:drop+gossip"] += 1
         if any(s == lim for s in l["qsizes"]):
             ob["send:exact fit queued"] += 1
         if lim == l["insize"]:
@@ -313,6 +307,24 @@ def run(ctx):
             ob["send:slow+idontwant"] += 1
         if l.get("piggy") and l["outsize"] < lim <= l["insize"]:
             ob["send:piggybacked content takes the RPC over the limit"] += 1
+        # the drop reports that are compared (by TLC) with what is missing from the queue
+        hit = set()
+        for f, sz in zip(l["rep"], l["dsizes"]):
+            cause = "oversize" if sz > lim else "queue full"
+            for kind, fld in (("ihave", "ihave"), ("iwant", "iwant"), ("idontwant", "idw")):
+                if nitems(f, fld) > 0:
+                    hit.add("send:dropped %s id reported (%s)" % (kind, cause))
+            if cause == "queue full":
+                if (f.get("graft") or f.get("prune")) and any(nitems(f, x) > 0 for x in ("ihave", "iwant", "idw")):
+                    hit.add("send:queue-full drop with GRAFT/PRUNE next to gossip ids")
+                hit.add("send:queue full, whole RPC dropped" if not l["queued"] and len(l["rep"]) == 1
+                        else "send:queue full after some fragments")
+        if l["retry"].get("graft") or l["retry"].get("prune"):
+            hit.add("send:GRAFT/PRUNE kept for a retry")
+        if l.get("pos") == "middle" and l["cap"] < 0 and l["queued"] and l["rep"]:
+            hit.add("send:giant id with fitting elements before and after")
+        for h in hit:
+            ob[h] += 1
 
     nrand = 150 if not ctx.thorough else 1500
     for test, env in (("TestC11Shapes", {"VERIF_IN": scn_file}), ("TestC11Random", {"VERIF_C11_RANDOM": nrand}),
@@ -396,7 +408,8 @@ def run(ctx):
         if ln["e"] == "case":
             what = "%d fragments of sizes %s" % (len(ln["frags"]), ln["sizes"][:12])
         else:
-            what = "sendRPC queued %d RPCs of sizes %s and reported %d drop(s)" % (len(ln["queued"]), ln["qsizes"][:12], ln["drops"])
+            what = "queue capacity %s; sendRPC queued %d RPCs of sizes %s and reported %d drop(s) of sizes %s" % (
+                "unbounded" if ln["cap"] < 0 else ln["cap"], len(ln["queued"]), ln["qsizes"][:12], ln["drops"], ln["dsizes"][:8])
         vlib.add_violation(ctx, pred, sig,
                            "%s on %d recorded %s; smallest: case %s, limit %d, input size %d, %s; TLC: %s"
                            % (sig["clause"], g["n"], "split(s)" if ln["e"] == "case" else "sendRPC call(s)", ln["id"], ln["limit"],
@@ -446,5 +459,8 @@ def run(ctx):
         "'empty RPC' = no message, subscription, control entry or extension field (an empty Control wrapper alone is empty); inputs never contain a non-nil but empty Control",
         "the input space beyond the enumerated shapes (elements of 128 bytes and more, thousands of ids) is sampled by a seeded generator, not enumerated",
         "sendRPC is driven inside the event loop of a real gossipsub node towards a peer that exists as an outbound queue only "
-        "(PubSub.VerifSendRPC, build tag verif); the writer goroutine and the wire are not part of this check; in every other sendRPC case the PRUNEs and IHAVEs reach sendRPC "
-        "by piggybacking (pending control retry / pending gossip installed for the peer); GRAFT retries (need mesh membership) are not piggybacked"])
+        "(PubSub.VerifSendRPCQ, build tag verif; unbounded, or taking 0..3 RPCs so that the queue-full drop path runs); the writer goroutine and the wire are not part "
+        "of this check; in every other sendRPC case the PRUNEs and IHAVEs reach sendRPC by piggybacking (pending control retry / pending gossip installed for the peer); "
+        "GRAFT retries (need mesh membership) are not piggybacked",
+        "drop reports: the RPC given to RawTracer.DropRPC is read INSIDE the callback (it is altered afterwards) and the DROP_RPC event's meta inside EventTracer.Trace; "
+        "judged: queued (+) reported-dropped = original per kind; the GRAFT/PRUNE kept for a retry must be among the reported-dropped ones (that they ARE kept is recorded, not judged)"])
